@@ -30,6 +30,9 @@ structure Ev (n : Nat) where
   typ : Nat
   obj : Obj n
 
+/-- `note.end_time = t` (every other field of the message keeps its value) -/
+def setEnd (nt : Note) (t : Rat) : Note := { nt with end_ := t }
+
 /-- heap update: the object `j` now has value `v` -/
 def upd {n : Nat} (store : Fin n → Note) (j : Fin n) (v : Note) : Fin n → Note :=
   fun i => if i = j then v else store i
@@ -90,7 +93,7 @@ def offLoop {n : Nat} (t : Rat) :
   | [], store, total => (store, total, [])
   | j :: js, store, total =>
     if (store j).end_ < t then
-      offLoop t js (upd store j { store j with end_ := t }) (if total < t then t else total)
+      offLoop t js (upd store j (setEnd (store j) t)) (if total < t then t else total)
     else
       let r := offLoop t js store total
       (r.1, r.2.1, j :: r.2.2)
@@ -114,7 +117,7 @@ def strikeLoop {n : Nat} (t : Rat) (k : Fin n) :
   | [], store, seq => .ok (store, seq, [])
   | j :: js, store, seq =>
     if (store j).pitch = (store k).pitch then
-      let store' := upd store j { store j with end_ := t }
+      let store' := upd store j (setEnd (store j) t)
       if (store' j).start = (store' j).end_ then
         match seqRemove store' (store' j) seq with
         | .error e => .error e
@@ -173,7 +176,7 @@ def run {n : Nat} : St n → List (Ev n) → Except Err (St n)
 
 /-- one note of the close-out: `note.end_time = time; if time > total_time: total_time = time` -/
 def closeNote {n : Nat} (st : St n) (j : Fin n) : St n :=
-  { st with store := upd st.store j { st.store j with end_ := st.time },
+  { st with store := upd st.store j (setEnd (st.store j) st.time),
             total := if st.total < st.time then st.time else st.total }
 
 /-- `for instrument in active_notes.values(): for note in instrument: …` -/
